@@ -128,7 +128,31 @@ def line_pool(rng, thorough):
     return pools
 
 
+# riscv lines whose bytes depend on the ACTIVE extension set (pseudo-instructions with an extension-specific single instruction): a
+# `.feature` line must replace the set for the lines after it, in one invocation exactly as at the start of a new one
+RV_FEATURE_SENSITIVE = [([".feature zbb"], "sext.b x5, x6"), ([".feature i"], "sext.b x5, x6"), ([".feature zbb"], "sext.h x1, x2"), ([".feature i"], "sext.h x1, x2"),
+                        ([".feature zbb"], "zext.h x7, x8"), ([".feature i"], "zext.h x7, x8"), ([".feature zba"], "zext.w x9, x10"), ([".feature i"], "zext.w x9, x10"),
+                        ([".feature zbb"], "clz x3, x4"), ([".feature zba"], "sh1add x3, x4, x5"), ([".feature m"], "mul x3, x4, x5"), ([".feature i"], "add x3, x4, x5")]
+
+
+def gen_feature_program(rng):
+    lines = []
+    for _ in range(rng.range(2, 8)):
+        c = rng.below(10)
+        if c < 7:
+            lines.append(rng.choice(RV_FEATURE_SENSITIVE))
+        elif c < 8:
+            lines.append(([], f"l{rng.below(3)}:"))
+        elif c < 9:
+            lines.append(([".feature i"], f"j {rng.choice(['>l0', '<l1'])}"))
+        else:
+            lines.append(([], f"; let off{rng.below(9)} = ops.offset()"))
+    return "riscv64", lines
+
+
 def gen_program(rng, pools):
+    if rng.below(10) == 0:
+        return gen_feature_program(rng)
     arch = rng.choice(["x64", "x64", "aarch64", "riscv64"])
     const, dyn = pools[arch]
     lines = []
